@@ -68,6 +68,8 @@ def decomposed(draw, kind, tier='quick', max_subs=3):
         'kind': kind, 'formula': f, 'vars': vs, 'subs': subs, 'consts': consts, 'bound_const': bound_const,
         'delivery': draw(st.sampled_from(['add_sub_spec', 'assertions'])),
         'declare_names': draw(st.booleans()),
+        # layout of every requirement text: comments before / after it, line breaks, with or without the final ';'
+        'decor': draw(st.lists(st.integers(0, len(DECOR) - 1), min_size=4, max_size=4)) if draw(st.booleans()) else None,
     }
     if kind.startswith('dt'):
         n = draw(F.trace_lengths(10))
@@ -78,6 +80,23 @@ def decomposed(draw, kind, tier='quick', max_subs=3):
         case['signals'] = {v: draw(grid_signal(0, max_samples=6)) for v in vs}
         case['chunks'] = draw(st.integers(1, 3))
     return case
+
+
+DECOR = [
+    lambda t: t + ';',
+    lambda t: t + '; // the requirement ends here',
+    lambda t: '// a named requirement\n' + t + ';',
+    lambda t: '/* a named\n requirement */ ' + t + ';',
+    lambda t: t + '\n;',
+    lambda t: t + '; /* end */',
+    lambda t: '\n' + t + ';\n',
+    lambda t: t + ';\t',
+]
+
+
+def decorate(case, i, t):
+    d = case.get('decor')
+    return DECOR[d[i % len(d)]](t) if d else t + ';'
 
 
 def sub_names(case):
@@ -151,11 +170,31 @@ def build_modular(case, inline=False):
     if case['declare_names']:
         declared += [n for n, _ in bodies]
     if case['delivery'] == 'add_sub_spec':
-        subspecs = ['%s = %s;' % (n, t) for n, t in bodies]
+        subspecs = [decorate(case, i, '%s = %s' % (n, t)) for i, (n, t) in enumerate(bodies)]
         text = 'out = ' + main
     else:
         subspecs = []
-        text = ' '.join('%s = %s;' % (n, t) for n, t in bodies) + ' out = ' + main
+        sep = '\n' if case.get('decor') else ' '
+        text = sep.join(decorate(case, i, '%s = %s' % (n, t)) for i, (n, t) in enumerate(bodies)) + sep + 'out = ' + main
+    prev = case.get('previous')
+    if prev and case['delivery'] == 'assertions':
+        # the object was first parsed with another text that binds the same names to other formulas, then the text was
+        # edited and parsed again
+        pc = dict(case, formula=prev['formula'], subs=prev['subs'], consts=[], bound_const=None)
+        pbodies, pmain, _ = modular_texts(pc, printer_for(kind))
+        ptext = ' '.join('%s = %s;' % (n, t) for n, t in pbodies) + ' out = ' + pmain
+        pused = [v for v in case['vars'] if v in F.fvars(from_json(prev['formula']))]
+        if prev.get('mode') == 'redefine':
+            # one text in which the names are defined twice: the later definition is the one in force
+            text2 = ' '.join('%s = %s;' % (n, t) for n, t in pbodies) + ' ' + text
+            return build(base_kind, text2, declared + [v for v in pused if v not in declared], consts=const_decl,
+                         pastify=(kind == 'dt_on_past'))
+        spec = build(base_kind, ptext, declared + [v for v in pused if v not in declared], consts=const_decl)
+        spec.spec = text
+        spec.parse()
+        if kind == 'dt_on_past':
+            spec.pastify()
+        return spec
     return build(base_kind, text, declared, consts=const_decl, subspecs=subspecs, pastify=(kind == 'dt_on_past'))
 
 
